@@ -30,18 +30,18 @@ type Result struct {
 
 // Opts configure a run.
 type Opts struct {
-	SpecDir   string // directory holding *.tla and *.cfg
-	Module    string // e.g. MC_C03 (without .tla)
-	Config    string // e.g. MC_C03_quick.cfg
-	Workers   int
-	Timeout   time.Duration
-	Simulate  string   // "" or e.g. "num=500" for -simulate
-	Depth     int      // -depth for simulation
-	Seed      int64    // -seed (simulation)
-	Extra     []string // extra args
-	WorkDir   string   // scratch parent directory
-	KeepLines bool
-	JavaOpts  string
+	SpecDir    string // directory holding *.tla and *.cfg
+	Module     string // e.g. MC_C03 (without .tla)
+	Config     string // e.g. MC_C03_quick.cfg
+	Workers    int
+	Timeout    time.Duration
+	Simulate   string   // "" or e.g. "num=500" for -simulate
+	Depth      int      // -depth for simulation
+	Seed       int64    // -seed (simulation)
+	Extra      []string // extra args
+	WorkDir    string   // scratch parent directory
+	KeepLines  bool
+	JavaOpts   string
 	ExtraFiles map[string]string // name -> content, written into the scratch copy (e.g. trace files)
 }
 
